@@ -8,6 +8,7 @@ import (
 	"os"
 	"sort"
 	"strings"
+	"sync"
 
 	"golang.org/x/tools/go/callgraph"
 	"golang.org/x/tools/go/callgraph/cha"
@@ -34,6 +35,11 @@ type Prog struct {
 
 	// statistics for the evidence file
 	NFiles, NFuncs, NEdges int
+
+	roGlobals sync.Map // *ssa.Global -> [2]string{"y"/"n", reason}
+	initOnce  sync.Once
+	initHeap  map[string]Val
+	initReady bool
 }
 
 // Load loads and type-checks the module found at dir. overlay maps absolute
@@ -307,4 +313,241 @@ func (p *Prog) patternOfGlobalPath(path string) (string, bool) {
 		}
 	}
 	return "", false
+}
+
+// globalReadOnly decides whether a package-level variable of the module is a
+// table: assigned only by the package initialiser, and everything read out of
+// it (elements, windows, fields, through parameters of module functions) is
+// only read. reason names the first use that is not a read.
+func (p *Prog) globalReadOnly(g *ssa.Global) (bool, string) {
+	if v, ok := p.roGlobals.Load(g); ok {
+		r := v.([2]string)
+		return r[0] == "y", r[1]
+	}
+	ok, why := p.globalReadOnly1(g)
+	yn := "n"
+	if ok {
+		yn = "y"
+	}
+	p.roGlobals.Store(g, [2]string{yn, why})
+	return ok, why
+}
+
+func (p *Prog) globalReadOnly1(g *ssa.Global) (bool, string) {
+	if g.Pkg == nil || !strings.HasPrefix(g.Pkg.Pkg.Path(), modPath) {
+		return false, "not a variable of the module"
+	}
+	seen := map[ssa.Value]bool{}
+	localCopy := map[ssa.Value]bool{} // local variables holding a copy of an element, and their fields
+	var why string
+	// refLike: a value through which storage could be written or handed on
+	refLike := func(t types.Type) bool {
+		switch t.Underlying().(type) {
+		case *types.Slice, *types.Map, *types.Pointer, *types.Struct, *types.Array, *types.Tuple:
+			return true
+		}
+		return false
+	}
+	var readOnly func(v ssa.Value, addr bool, depth int) bool
+	readOnly = func(v ssa.Value, addr bool, depth int) bool {
+		if seen[v] {
+			return true
+		}
+		seen[v] = true
+		refs := v.Referrers()
+		if refs == nil {
+			return true
+		}
+		for _, ref := range *refs {
+			at := p.Pos(ref.Pos())
+			switch x := ref.(type) {
+			case *ssa.UnOp:
+				if x.Op == token.MUL && refLike(x.Type()) && !readOnly(x, false, depth) {
+					return false
+				}
+			case *ssa.Store:
+				if x.Addr == v {
+					if localCopy[v] {
+						continue // assignment to the local copy, not to the table
+					}
+					why = "element or field written at " + p.Pos(x.Pos())
+					return false
+				}
+				// copied into a local variable: followed through that variable
+				if al, ok := x.Addr.(*ssa.Alloc); ok {
+					localCopy[al] = true
+					if !readOnly(al, true, depth) {
+						return false
+					}
+					continue
+				}
+				why = "stored elsewhere at " + p.Pos(x.Pos())
+				return false
+			case *ssa.MapUpdate:
+				why = "map updated at " + p.Pos(x.Pos())
+				return false
+			case *ssa.IndexAddr:
+				if _, isArr := x.X.Type().Underlying().(*types.Pointer); isArr && localCopy[v] {
+					localCopy[x] = true
+				}
+				if !readOnly(x, true, depth) {
+					return false
+				}
+			case *ssa.FieldAddr:
+				if localCopy[v] {
+					localCopy[x] = true
+				}
+				if !readOnly(x, true, depth) {
+					return false
+				}
+			case *ssa.Index, *ssa.Field, *ssa.Lookup, *ssa.Extract, *ssa.Next, *ssa.Range, *ssa.Phi, *ssa.Slice, *ssa.ChangeType:
+				xv := x.(ssa.Value)
+				if _, isRange := x.(*ssa.Range); isRange || refLike(xv.Type()) {
+					if !readOnly(xv, false, depth) {
+						return false
+					}
+				}
+			case *ssa.BinOp, *ssa.If, *ssa.DebugRef:
+			case ssa.CallInstruction:
+				cc := x.Common()
+				if b, ok := cc.Value.(*ssa.Builtin); ok {
+					if b.Name() == "len" || b.Name() == "cap" {
+						continue
+					}
+					why = "passed to " + b.Name() + " at " + at
+					return false
+				}
+				sc := cc.StaticCallee()
+				if sc == nil {
+					why = "passed to a dynamic call at " + at
+					return false
+				}
+				if len(sc.Blocks) == 0 || sc.Pkg == nil || !strings.HasPrefix(sc.Pkg.Pkg.Path(), modPath) {
+					// a pointer to a type of another package used as the receiver
+					// or argument of that package's read-only functions
+					if readOnlyExternal(sc) {
+						continue
+					}
+					why = "passed to " + FnName(sc) + " at " + at
+					return false
+				}
+				if depth >= 3 {
+					why = "passed down more than three calls at " + at
+					return false
+				}
+				for i, a := range cc.Args {
+					if a == v && i < len(sc.Params) {
+						if !readOnly(sc.Params[i], false, depth+1) {
+							return false
+						}
+					}
+				}
+				if _, isGo := x.(*ssa.Go); isGo {
+					why = "passed to a goroutine at " + at
+					return false
+				}
+			default:
+				why = fmt.Sprintf("used by %T at %s", ref, at)
+				return false
+			}
+		}
+		return true
+	}
+	refs := g.Referrers()
+	_ = refs
+	// a Global has no referrer list: scan the module
+	for _, fn := range p.Funcs {
+		inInit := fn.Name() == "init" && fn.Parent() == nil
+		for _, b := range fn.Blocks {
+			for _, instr := range b.Instrs {
+				uses := false
+				for _, op := range instr.Operands(nil) {
+					if *op == ssa.Value(g) {
+						uses = true
+					}
+				}
+				if !uses {
+					continue
+				}
+				switch x := instr.(type) {
+				case *ssa.Store:
+					if x.Addr == ssa.Value(g) && inInit {
+						continue
+					}
+					return false, "assigned outside the package initialiser at " + p.Pos(x.Pos())
+				case *ssa.UnOp:
+					if x.Op == token.MUL {
+						if inInit {
+							continue
+						}
+						if refLike(x.Type()) && !readOnly(x, false, 0) {
+							return false, why
+						}
+						continue
+					}
+					return false, "used at " + p.Pos(x.Pos())
+				case *ssa.FieldAddr, *ssa.IndexAddr:
+					if inInit {
+						continue
+					}
+					if !readOnly(x.(ssa.Value), true, 0) {
+						return false, why
+					}
+				case *ssa.DebugRef:
+				default:
+					if inInit {
+						continue
+					}
+					return false, fmt.Sprintf("address used by %T at %s", instr, p.Pos(instr.Pos()))
+				}
+			}
+		}
+	}
+	return true, ""
+}
+
+// initCell: what the package initialisers left at a memory path, for the
+// read-only tables of the module. The initialisers are evaluated once with
+// the interpreter itself.
+func (p *Prog) initCell(path string) (Val, bool) {
+	p.initOnce.Do(func() {
+		p.initHeap = map[string]Val{}
+		for _, sp := range p.SPkgs {
+			fn := sp.Func("init")
+			if fn == nil || len(fn.Blocks) == 0 {
+				continue
+			}
+			in := NewInterp(p)
+			in.noInitHeap = true
+			in.InitBind = map[string]Val{"g:" + sp.Pkg.Path() + ".init$guard": {K: KBool, B: false}}
+			in.Run(fn, nil, nil)
+			if len(in.Stuck) > 0 {
+				continue
+			}
+			for k, v := range in.FinalHeap() {
+				p.initHeap[k] = v
+			}
+		}
+		p.initReady = true
+	})
+	if !p.initReady {
+		return Val{}, false
+	}
+	v, ok := p.initHeap[path]
+	return v, ok
+}
+
+// initCellsUnder joins the elements an initialiser stored under prefix "x[".
+func (p *Prog) initCellsUnder(prefix string) (Val, bool) {
+	if _, ok := p.initCell(prefix); !ok && !p.initReady {
+		return Val{}, false
+	}
+	res, n := Val{K: KBot}, 0
+	for k, v := range p.initHeap {
+		if strings.HasPrefix(k, prefix) && !strings.Contains(k[len(prefix):], ".") && strings.Count(k[len(prefix):], "[") == 0 {
+			res = join(res, v)
+			n++
+		}
+	}
+	return res, n > 0
 }
